@@ -314,7 +314,72 @@ pub fn shrink_world(w: &World, clause: &str, judge: &dyn Fn(&World) -> Vec<Viola
             cur = cand;
         }
     }
+    cur = shrink_values(&cur, &still);
     cur.note = format!("{} [minimised from {} ops]", cur.note, w.ops.len());
+    cur
+}
+
+/// Argument shrinking: every distinct long byte-string parameter (password,
+/// credential id, context, explicit identity) is replaced *everywhere it
+/// occurs* by a short stand-in, so equalities between ops are preserved.
+fn shrink_values(w: &World, still: &dyn Fn(&World) -> bool) -> World {
+    let mut cur = w.clone();
+    let Ok(mut val) = serde_json::to_value(&cur) else { return cur };
+    let mut seen: Vec<String> = vec![];
+    fn collect(v: &Value, key: Option<&str>, out: &mut Vec<String>) {
+        match v {
+            Value::Object(m) => {
+                for (k, x) in m {
+                    collect(x, Some(k), out)
+                }
+            }
+            Value::Array(a) => {
+                for x in a {
+                    collect(x, key, out)
+                }
+            }
+            Value::String(s) => {
+                if matches!(key, Some("pw") | Some("cred") | Some("ctx") | Some("Bytes")) && s.len() > 8 && !out.contains(s) {
+                    out.push(s.clone())
+                }
+            }
+            _ => {}
+        }
+    }
+    collect(&val["ops"], None, &mut seen);
+    fn subst(v: &mut Value, key: Option<&str>, from: &str, to: &str) {
+        match v {
+            Value::Object(m) => {
+                for (k, x) in m.iter_mut() {
+                    let k2 = k.clone();
+                    subst(x, Some(&k2), from, to)
+                }
+            }
+            Value::Array(a) => {
+                for x in a {
+                    subst(x, key, from, to)
+                }
+            }
+            Value::String(s) => {
+                if matches!(key, Some("pw") | Some("cred") | Some("ctx") | Some("Bytes")) && s == from {
+                    *s = to.to_string()
+                }
+            }
+            _ => {}
+        }
+    }
+    for (n, long) in seen.iter().enumerate().take(24) {
+        let short = format!("a{:x}{:02x}", n % 16, (long.len() / 2) % 256);
+        let short = if short.len() % 2 == 1 { format!("0{short}") } else { short };
+        let mut cand_v = val.clone();
+        subst(&mut cand_v["ops"], None, long, &short);
+        if let Ok(cand) = serde_json::from_value::<World>(cand_v.clone()) {
+            if still(&cand) {
+                cur = cand;
+                val = cand_v;
+            }
+        }
+    }
     cur
 }
 
